@@ -25,7 +25,7 @@ Two32     == 4294967296
 RealEpoch == -2208988800
 LastRef   == RealEpoch + 5 * Two32
 
-\* the code as it is / with the backward branch
+\* the old forward-only unfolding (self-test) / the code with the backward branch
 F == INSTANCE NtpTime WITH NsPerSec <- RealNs, FracUnits <- Two32, EraSecs <- Two32, Epoch <- RealEpoch,
        ForwardOnlyEraUnfold <- TRUE, RefSecs <- {0}, RefNs <- {0}, Offs <- {0}, NsVals <- {0}
 R == INSTANCE NtpTime WITH NsPerSec <- RealNs, FracUnits <- Two32, EraSecs <- Two32, Epoch <- RealEpoch,
@@ -50,7 +50,7 @@ RoundTripRepaired == R!Judged(t, t0) =>
   LET back == R!RT(t, t0) IN R!Within1ns(R!DiffNs(back, t)) /\ R!DiffNs(back, t) <= 0
 OrderRepaired == (R!Judged(t, t0) /\ R!Judged(u, t0) /\ R!DiffNs(t, u) <= 0) =>
   R!DiffNs(R!RT(t, t0), R!RT(u, t0)) <= 0
-\* the same with the code as it is: expected to be refuted (era counterexample)
+\* the same with the old forward-only unfolding: must be refuted (era counterexample)
 RoundTripFaithful == F!Judged(t, t0) =>
   LET back == F!RT(t, t0) IN F!Within1ns(F!DiffNs(back, t)) /\ F!DiffNs(back, t) <= 0
 OrderFaithful == (F!Judged(t, t0) /\ F!Judged(u, t0) /\ F!DiffNs(t, u) <= 0) =>
